@@ -8,6 +8,7 @@ mod layout;
 mod limits;
 mod snap;
 mod symrec;
+mod tp;
 mod util;
 
 fn main() {
@@ -27,6 +28,7 @@ fn main() {
         "snap-replay" => snap::cmd_replay(&args[2], &args[3]),
         "expr-replay" => expr::cmd_replay(&args[2], &args[3]),
         "sym-record" => symrec::cmd_record(args[2].parse().unwrap(), &args[3]),
+        "tp-replay" => tp::cmd_replay(&args[2], &args[3]),
         "auth-replay" => auth::cmd_replay(&args[2], &args[3]),
         "dlog-replay" => dlog::cmd_replay(&args[2], &args[3]),
         "chain-honest" => chain::cmd_honest(&args[2], &args[3]),
